@@ -429,6 +429,8 @@ type FuncSpec struct {
 	TrustedEnsures  []Clause
 	TrustedModifies []*Expr
 	TrustedWhy      string
+	Unguarded       []string // "Type.field" reads exempt from guarded_by in this function (with reason)
+	UnguardedWhy    []string
 }
 
 type TypeSpec struct {
@@ -976,6 +978,16 @@ func parseFuncClause(f *FuncSpec, word, rest, pos string, ext bool) error {
 		f.Inline = true
 	case "exclusive":
 		f.Exclusive = true
+		if rest != "" {
+			f.UnguardedWhy = append(f.UnguardedWhy, "exclusive: "+rest)
+		}
+	case "unguarded":
+		w, why := splitWord(rest)
+		if why == "" {
+			return fmt.Errorf("%s: unguarded needs Type.field and a reason", pos)
+		}
+		f.Unguarded = append(f.Unguarded, w)
+		f.UnguardedWhy = append(f.UnguardedWhy, "unguarded "+w+": "+why)
 	case "nopanic":
 		f.NoPanic = true
 	case "trusted":
